@@ -424,6 +424,29 @@ def gen_midframe(rng, knobs=None):
         if rng.random() < 0.4:
             prog.append(['emit', 0, role, 20, 0, 0])
     prog.append(['settle'])
+    if kind != 'rr' and rng.random() < k.get('p_own_end', 0.3):
+        # the EMITTER itself goes on while its frame is half-written - j fragments out, the sender inside the write of the j-th (up to and
+        # including the last one): its publisher signals the next element and / or completes.  Everything it signalled reaches the peer
+        prog.append(['gate', emitter, rng.choice([1, 2, 3, 4, 5, 6, 7])])
+        prog.append(['settle'])
+        if rng.random() < 0.4:
+            prog.append(['emit', 0, role, 20, 0, 0])
+        prog.append(['complete', 0, role])
+        prog.append(['settle'])
+        for _ in range(rng.randint(0, 3)):
+            prog.append(['gate', emitter, 1])
+            prog.append(['settle'])
+        prog.append(['gate_open', emitter])
+        prog.append(['pump'])
+        if kind == 'channel':
+            prog.append(['complete', 0, 'req' if role == 'resp' else 'resp'])
+            prog.append(['pump'])
+        if opts['max_stream_id'] is None:
+            del opts['max_stream_id']
+        prog.append(['probe', init, spec(rng, big=False), [10, 0]])
+        prog.append(['pump'])
+        prog.append(['finish'])
+        return opts, prog
     prog.append(['gate', emitter, rng.choice([1, 1, 2, 3])])
     prog.append(['settle'])
     receiver = init if emitter == other else other
